@@ -473,6 +473,9 @@ func historyCfgs(family string) []Cfg {
 		case "heatmap":
 			for _, p := range [][2]int{{5, 5}, {2, 2}, {1, 3}} {
 				out = append(out, Cfg{Scale: "linear", Color: cu[0], Unicode: cu[1], Rows: p[0], Cols: p[1]}, Cfg{Scale: "log2", Color: cu[0], Unicode: cu[1], Rows: p[0], Cols: p[1]}, Cfg{Scale: "linear", Color: cu[0], Unicode: cu[1], Rows: p[0], Cols: p[1], FixMin: true, Min: 1})
+				// the scale legend over a long history: both bounds pinned / one bound
+				// pinned, log scale, expression format
+				out = append(out, Cfg{Scale: "log10", Color: cu[0], Unicode: cu[1], Rows: p[0], Cols: p[1], FixMin: true, FixMax: true, Min: 1, Max: 50, Format: exprFormat}, Cfg{Scale: "log2", Color: cu[0], Unicode: cu[1], Rows: p[0], Cols: p[1], FixMax: true, Max: 50, Format: exprFormat})
 			}
 		case "spark":
 			for _, p := range [][2]int{{5, 5}, {5, 1}, {5, 2}, {5, 3}, {2, 2}, {1, 3}} {
